@@ -76,11 +76,12 @@ class NativeUseOfSymbol(Exception):
 class FmtInt:
     """format(<int term>, spec) — spec is a concrete format spec such as '', 'd', 'x', '04x', 'b'."""
 
-    __slots__ = ("t", "spec")
+    __slots__ = ("t", "spec", "width")
 
-    def __init__(self, t, spec):
+    def __init__(self, t, spec, width=None):
         self.t = t
         self.spec = "" if spec in ("d",) else spec
+        self.width = width  # rendered width when it is known (e.g. 2 for a byte as '02x')
 
     def __repr__(self):
         return f"{{{self.t}:{self.spec}}}"
@@ -167,6 +168,8 @@ class SStr(Sym):
                 n += p.width
             elif isinstance(p, BitChar):
                 n += 1
+            elif isinstance(p, FmtInt) and p.width is not None:
+                n += p.width
             else:
                 return None
         return n
